@@ -7,9 +7,9 @@ package dispatcher
 
 // A valid dispatcher genesis (C17): every entry names two valid cross-chain identifiers; amounts are
 // set, non-negative and not both zero; counts are positive.
-//@ macro amtEntryOK(a) = a.Denom != "" && a.SourceId != nil && vcc(deref(a.SourceId)) && a.DestinationId != nil && vcc(deref(a.DestinationId)) &&
+//@ macro amtEntryOK(a) = a.Denom != "" && a.SourceId != nil && vcc(deref(a.SourceId)) && deref(a.SourceId).ProtocolId > 0 && a.DestinationId != nil && vcc(deref(a.DestinationId)) && deref(a.DestinationId).ProtocolId > 0 &&
 //@                       !isnil(a.AmountDispatched.Incoming) && !isnil(a.AmountDispatched.Outgoing) && val(a.AmountDispatched.Incoming) >= 0 && val(a.AmountDispatched.Outgoing) >= 0
-//@ macro cntEntryOK(c) = c.Count > 0 && c.SourceId != nil && vcc(deref(c.SourceId)) && c.DestinationId != nil && vcc(deref(c.DestinationId))
+//@ macro cntEntryOK(c) = c.Count > 0 && c.SourceId != nil && vcc(deref(c.SourceId)) && deref(c.SourceId).ProtocolId > 0 && c.DestinationId != nil && vcc(deref(c.DestinationId)) && deref(c.DestinationId).ProtocolId > 0
 //@ macro amtEntriesOK(g) = forall j int trigger(g.DispatchedAmounts[j]) :: 0 <= j && j < len(g.DispatchedAmounts) ==> amtEntryOK(g.DispatchedAmounts[j])
 //@ macro cntEntriesOK(g) = forall j int trigger(g.DispatchedCounts[j]) :: 0 <= j && j < len(g.DispatchedCounts) ==> cntEntryOK(g.DispatchedCounts[j])
 //@ macro dispGenesisOK(g) = g != nil && amtEntriesOK(g) && cntEntriesOK(g)
